@@ -92,6 +92,40 @@ Definition graph_ok (g : Graph.graph) : bool :=
   i32_ok (zlen (Graph.gr_consts g)) && i32_ok (zlen (Graph.gr_controls g)) && i32_ok (zlen (Graph.gr_units g))
   && gunits_ok (Graph.gr_consts g) (zlen (Graph.gr_controls g)) [] (Graph.gr_units g).
 
+(* graph_ok = a STRUCTURAL part, which every output of the compiler is expected to satisfy whatever the
+   program (this is compile_wf, the compiler's obligation), and a SIZE part, which fails for programs
+   that do not fit the file format (more than 32767 control slots before a control unit, ...): for
+   those the real writer raises (struct.error) although the compiler succeeds *)
+Definition ginp_core (consts : list Q) (before : list Z) (i : Graph.ginp) : bool :=
+  match i with
+  | Graph.GK q => match const_index q consts with Some _ => true | None => false end
+  | Graph.GO idx ch => match nth_z before idx with Some no => Z.of_nat ch <? no | None => false end
+  end.
+Definition gunit_core (consts : list Q) (nctl : Z) (before : list Z) (g : Graph.gunit) : bool :=
+  let cls := bs_of_string (Graph.g_cls g) in
+  pstr_ok cls && negb (bytes_eqb cls [])
+  && forallb (ginp_core consts before) (Graph.g_ins g)
+  && (if is_ctl_cls cls
+      then (0 <=? Graph.g_special g) && (Graph.g_special g + Z.of_nat (Graph.g_nouts g) <=? nctl)
+      else true).
+Fixpoint gunits_core (consts : list Q) (nctl : Z) (before : list Z) (l : list Graph.gunit) : bool :=
+  match l with
+  | [] => true
+  | g :: r => gunit_core consts nctl before g
+              && gunits_core consts nctl (before ++ [Z.of_nat (Graph.g_nouts g)]) r
+  end.
+Definition graph_core_ok (g : Graph.graph) : bool :=
+  gunits_core (Graph.gr_consts g) (zlen (Graph.gr_controls g)) [] (Graph.gr_units g).
+
+Definition ginp_small (i : Graph.ginp) : bool :=
+  match i with Graph.GK _ => true | Graph.GO idx ch => i32_ok idx && i32_ok (Z.of_nat ch) end.
+Definition gunit_small (g : Graph.gunit) : bool :=
+  i16_ok (Graph.g_special g) && i32_ok (zlen (Graph.g_ins g)) && i32_ok (Z.of_nat (Graph.g_nouts g))
+  && forallb ginp_small (Graph.g_ins g).
+Definition graph_small (g : Graph.graph) : bool :=
+  i32_ok (zlen (Graph.gr_consts g)) && i32_ok (zlen (Graph.gr_controls g)) && i32_ok (zlen (Graph.gr_units g))
+  && forallb gunit_small (Graph.gr_units g).
+
 (* what the caller has to guarantee about the name, the parameter-name table and the float words *)
 Definition names_ok (name : bytes) (pnames : list (bytes * Z)) (nctl : Z) : bool :=
   pstr_ok name && i32_ok (zlen pnames) && forallb pname_ok pnames && forallb (pname_wf nctl) pnames.
